@@ -5,7 +5,11 @@
 #    /repo, undone afterwards); 3. stores everything under /verif/seeded/<PROP>-<A|B>/
 set -u
 P=$1; V=$2; shift 2
-WT=/tmp/mut/$P; OUT=/tmp/mut/$P-out; DST=/verif/seeded/$P-$V
+BASE=${MUT_BASE:-/tmp/mut}
+# second round: variants A/B of /tmp/mut2 are stored as C/D
+DV=$V
+if [ "$BASE" = "/tmp/mut2" ]; then [ "$V" = "A" ] && DV=C; [ "$V" = "B" ] && DV=D; fi
+WT=$BASE/$P; OUT=$BASE/$P-out; DST=/verif/seeded/$P-$DV
 mkdir -p $DST
 cp $OUT/$V.patch $DST/patch.diff
 for f in $OUT/${V}_demo.* $OUT/$V.md; do [ -e "$f" ] && cp "$f" $DST/; done
@@ -14,32 +18,32 @@ demo_rs=$OUT/${V}_demo.rs
 res_with="n/a"; res_without="n/a"; tests_with="n/a"
 if [ -f "$demo_rs" ]; then
   mkdir -p memcrs/tests && cp $demo_rs memcrs/tests/seeded_demo.rs
-  timeout 600 cargo test --offline -p memcrs --test seeded_demo >/tmp/mut/$P-$V-without.log 2>&1; res_without=$?
+  timeout 600 cargo test --offline -p memcrs --test seeded_demo >$BASE/$P-$V-without.log 2>&1; res_without=$?
   git apply $OUT/$V.patch || { echo "patch does not apply"; exit 2; }
-  timeout 600 cargo test --offline -p memcrs --test seeded_demo >/tmp/mut/$P-$V-with.log 2>&1; res_with=$?
+  timeout 600 cargo test --offline -p memcrs --test seeded_demo >$BASE/$P-$V-with.log 2>&1; res_with=$?
   rm -f memcrs/tests/seeded_demo.rs
-  timeout 900 cargo test --offline --workspace >/tmp/mut/$P-$V-suite.log 2>&1; tests_with=$?
-  npass=$(grep -m1 "test result" /tmp/mut/$P-$V-suite.log)
+  timeout 900 cargo test --offline --workspace >$BASE/$P-$V-suite.log 2>&1; tests_with=$?
+  npass=$(grep -m1 "test result" $BASE/$P-$V-suite.log)
   git checkout -q -- .
   rm -f memcrs/tests/seeded_demo.rs
 else
   git apply $OUT/$V.patch || { echo "patch does not apply"; exit 2; }
-  timeout 900 cargo test --offline --workspace >/tmp/mut/$P-$V-suite.log 2>&1; tests_with=$?
-  npass=$(grep -m1 "test result" /tmp/mut/$P-$V-suite.log)
+  timeout 900 cargo test --offline --workspace >$BASE/$P-$V-suite.log 2>&1; tests_with=$?
+  npass=$(grep -m1 "test result" $BASE/$P-$V-suite.log)
   git checkout -q -- .
 fi
 echo "demo without patch: exit $res_without (expect 0) ; with patch: exit $res_with (expect != 0) ; suite with patch: exit $tests_with [$npass]"
 results=$(/verif/tools/try_mutant.sh $OUT/$V.patch -- "$@")
 echo "$results"
-python3 - "$P" "$V" "$res_without" "$res_with" "$tests_with" "$npass" "$results" <<'PY'
+python3 - "$P" "$V" "$res_without" "$res_with" "$tests_with" "$npass" "$results" "$BASE" "$DV" <<'PY'
 import sys, json
-p,v,rw,rwi,tw,npass,results=sys.argv[1:8]
+p,v,rw,rwi,tw,npass,results,base,dv=sys.argv[1:10]
 caught=[l.split()[0] for l in results.splitlines() if ' exit=1 ' in l]
 missed=[l.split()[0] for l in results.splitlines() if ' exit=0 ' in l]
-meta={"property":p,"variant":v,
- "needs": open('/tmp/mut/%s-out/%s.md'%(p,v)).read()[:3000] if __import__('os').path.exists('/tmp/mut/%s-out/%s.md'%(p,v)) else "",
+meta={"property":p,"variant":dv,"round": 2 if base.endswith('mut2') else 1,
+ "needs": open('%s/%s-out/%s.md'%(base,p,v)).read()[:3000] if __import__('os').path.exists('%s/%s-out/%s.md'%(base,p,v)) else "",
  "confirmed":{"demo_passes_without_change": rw=="0", "demo_fails_with_change": rwi not in ("0","n/a"), "existing_suite_passes_with_change": tw=="0", "suite_line": npass},
  "checks_run": results.splitlines(), "caught_by": caught, "missed_by": missed}
-json.dump(meta, open('/verif/seeded/%s-%s/meta.json'%(p,v),'w'), indent=1)
+json.dump(meta, open('/verif/seeded/%s-%s/meta.json'%(p,dv),'w'), indent=1)
 print("caught_by", caught, "missed_by", missed)
 PY
